@@ -92,6 +92,9 @@ struct source { getter_t get; };
 typedef int qual_t;
 struct cq { const volatile qual_t q; };
 void mixer_apply(struct mixer *m);
+struct iq_sample { double _Complex z; int gain; };
+struct iq_burst { struct iq_sample s[2]; float _Complex carrier; };
+struct raw_lanes { __attribute__((vector_size(16))) float lanes; int n; };
 """,
         "decls": {
             "sample_t": decl("type", "sample_t", [], ["sample_t"]),
@@ -108,6 +111,11 @@ void mixer_apply(struct mixer *m);
             "qual_t": decl("type", "qual_t", [], ["qual_t"]),
             "cq": decl("type", "cq", ["qual_t"], ["cq"]),
             "mixer_apply": decl("function", "mixer_apply", ["mixer"], ["mixer_apply"]),
+            # members of builtin kinds that are not named declarations (complex, vector): nothing to allowlist,
+            # nothing that could be missing - the items must come out exactly as in the full bindings
+            "iq_sample": decl("type", "iq_sample", [], ["iq_sample"]),
+            "iq_burst": decl("type", "iq_burst", ["iq_sample"], ["iq_burst"]),
+            "raw_lanes": decl("type", "raw_lanes", [], ["raw_lanes"]),
         }},
     "ns": {
         "ext": ".hpp", "flags": ["--enable-cxx-namespaces"],
@@ -394,9 +402,9 @@ def replay_family(res, tier, name, fam):
     all_emits = set()
     for dn, dd in fam["decls"].items():
         all_emits |= set(dd["emits"])
-    if set(full) != all_emits:
+    if {n for n in full if not helper_name(n)} != all_emits:
         raise C.ToolError("family %s: model of emitted names is wrong: only-real=%s only-model=%s" %
-                          (name, sorted(set(full) - all_emits), sorted(all_emits - set(full))))
+                          (name, sorted(n for n in set(full) - all_emits if not helper_name(n)), sorted(all_emits - set(full))))
     compile_texts, compile_ids = [], []
     for i, c in enumerate(cases):
         jid = "c%05d" % i
